@@ -6,6 +6,7 @@
 package mimefam
 
 import (
+	"bufio"
 	"bytes"
 	"context"
 	"embed"
@@ -19,6 +20,7 @@ import (
 	"io"
 	"io/fs"
 	"math/rand"
+	"net"
 	netmail "net/mail"
 	"os"
 	"os/exec"
@@ -504,6 +506,9 @@ type Built struct {
 	Mat        *Material
 	usesToggle bool // at least one producer honours the Broken switch
 	cleanup    []func()
+	// Prior: the bytes of a render that happened before the operations of the scenario (the DATA content of the send
+	// through which mail.QuickSend created the message): the renders of the scenario must equal it
+	Prior []byte
 }
 
 // Close removes temporary files.
@@ -1047,7 +1052,79 @@ func Build(p Prog, seed int64, failSlot int, failWhen string, tmpdir string) (*B
 		b.TopNames = append(b.TopNames, strings.ToLower(n))
 	}
 	sort.Strings(b.TopNames)
+	if p.Style == "quicksend" { // the message is what mail.QuickSend returns after it has sent it: one text body
+		if len(p.Parts) != 1 || len(p.Embeds)+len(p.Atts) != 0 {
+			return nil, fmt.Errorf("style quicksend: one body part only")
+		}
+		qm, wire, err := quickSendMsg(Content(p.Parts[0].Cc, rand.New(rand.NewSource(seed)), true))
+		if err != nil {
+			return nil, err
+		}
+		b.Msg, b.Prior = qm, wire
+	}
 	return b, nil
+}
+
+// quickSendMsg sends content with mail.QuickSend to a minimal SMTP server on the loopback interface and returns the
+// message QuickSend hands back together with the DATA content the server received (dot-unstuffed).
+func quickSendMsg(content []byte) (*mail.Msg, []byte, error) {
+	ln, err := net.Listen("tcp", "127.0.0.1:0")
+	if err != nil {
+		return nil, nil, err
+	}
+	defer ln.Close()
+	got := make(chan []byte, 1)
+	go func() {
+		c, aerr := ln.Accept()
+		if aerr != nil {
+			got <- nil
+			return
+		}
+		defer c.Close()
+		_ = c.SetDeadline(time.Now().Add(30 * time.Second))
+		br := bufio.NewReader(c)
+		say := func(s string) { _, _ = c.Write([]byte(s + "\r\n")) }
+		say("220 quicksend.test ESMTP")
+		var data []byte
+		for {
+			line, rerr := br.ReadString('\n')
+			if rerr != nil {
+				got <- data
+				return
+			}
+			verb := strings.ToUpper(strings.TrimSpace(line))
+			switch {
+			case strings.HasPrefix(verb, "EHLO"), strings.HasPrefix(verb, "HELO"):
+				say("250 quicksend.test")
+			case strings.HasPrefix(verb, "DATA"):
+				say("354 go ahead")
+				for {
+					l, derr := br.ReadString('\n')
+					if derr != nil || l == ".\r\n" {
+						break
+					}
+					data = append(data, strings.TrimPrefix(l, ".")...)
+				}
+				say("250 queued")
+			case strings.HasPrefix(verb, "QUIT"):
+				say("221 bye")
+				got <- data
+				return
+			default:
+				say("250 ok")
+			}
+		}
+	}()
+	m, err := mail.QuickSend(ln.Addr().String(), nil, "sender@from.test", []string{"rcpt@to.test"}, "render scenario", content)
+	if err != nil {
+		return nil, nil, fmt.Errorf("QuickSend: %w", err)
+	}
+	select {
+	case wire := <-got:
+		return m, wire, nil
+	case <-time.After(30 * time.Second):
+		return nil, nil, fmt.Errorf("QuickSend: the server did not see the end of the session")
+	}
 }
 
 // verifMiddleware is a middleware of the caller that changes what is rendered (idempotent).
@@ -1591,6 +1668,10 @@ func (rn *Runner) Run() {
 	}
 	var distinct []rendering
 	mwaApplied := false
+	if built.Prior != nil { // a render that precedes the scenario: what is rendered now must equal it
+		// (the DATA section ends with a line break of the transport when the message does not end with one)
+		hashID(ids, bytes.TrimSuffix(built.Prior, []byte("\r\n")))
+	}
 	var reader *mail.Reader
 	for k, op := range ops {
 		wasApplied := mwaApplied // (every render applies the middlewares before anything is written, a failing one too)
@@ -1771,6 +1852,9 @@ func (rn *Runner) Run() {
 				if e := mimeread.Parse(same); e.Multi == "signed" && len(e.Children) >= 1 {
 					same = e.Children[0].Raw
 				}
+			}
+			if built.Prior != nil {
+				same = bytes.TrimSuffix(same, []byte("\r\n"))
 			}
 			if sc.Prog.Mw == "pair" {
 				// the field of the first middleware is missing exactly in a render that skipped it before any other render
